@@ -249,8 +249,24 @@ class StandardQTomography(QTomography):
             tmp_prob_dists = (
                 self.calc_matA() @ qope.to_stacked_vector() + self.calc_vecB()
             )
-        prob_dists = tmp_prob_dists.reshape((self.num_schedules, -1))
-        prob_dists = matrix_util.truncate_and_normalize(prob_dists)
+        sizes = [
+            self.num_outcomes(schedule_index)
+            for schedule_index in range(self.num_schedules)
+        ]
+        if len(set(sizes)) <= 1:
+            prob_dists = tmp_prob_dists.reshape((self.num_schedules, -1))
+            prob_dists = matrix_util.truncate_and_normalize(prob_dists)
+        else:
+            # schedules with different numbers of outcomes
+            prob_dists = []
+            start = 0
+            for size in sizes:
+                prob_dists.append(
+                    matrix_util.truncate_and_normalize(
+                        tmp_prob_dists[start : start + size]
+                    )
+                )
+                start += size
 
         return prob_dists
 
